@@ -76,6 +76,7 @@ func judge(prop *Property, ep *Episode) []Viol {
 		j.add("C07.c", 0, "the job passed to the worker function does not carry submitted data (payload matches no submission): %s", m)
 	}
 	j.v = append(j.v, j.r.ackViol...)
+	j.checkReentrantCalls()
 	j.checkExecution()
 	j.checkConcurrency()
 	j.checkHandles()
@@ -92,6 +93,36 @@ func judge(prop *Property, ep *Episode) []Viol {
 	}
 	sort.SliceStable(j.v, func(a, b int) bool { return j.v[a].Seq < j.v[b].Seq })
 	return j.v
+}
+
+// checkReentrantCalls: a worker function may call back into the library. None of the calls
+// the harness makes from there (TunePool, Pause, the introspection calls, an Add on an
+// unbounded queue) waits for anything but short internal locks, so one that has not returned
+// when the system is at rest is a deadlock between the library and the caller's worker
+// function - typically with a Stop/Restart that waits for this very function. Reported like
+// a hang of the driving task (every check owns it).
+func (j *judgeCtx) checkReentrantCalls() {
+	if j.ep.Res.Verdict != simrt.VDone {
+		return
+	}
+	open := map[int]int{} // task -> sub whose function is executing on it
+	for _, f := range j.r.fns {
+		if f.Enter {
+			open[f.Task] = f.Sub + 1
+		} else {
+			delete(open, f.Task)
+		}
+	}
+	for _, c := range j.r.calls {
+		if c.Ret != 0 || open[c.Task] == 0 {
+			continue
+		}
+		switch c.K {
+		case opTune, opPause, opIntro, opAdd:
+			j.add("hang", j.final, "%s called from inside the worker function of job %d (task %d, invoked at %d) has not returned although the system is at rest: the library is deadlocked against its caller's worker function; %s", opNames[c.K], open[c.Task]-1, c.Task, c.Inv, j.blockedTable())
+			return
+		}
+	}
 }
 
 func (j *judgeCtx) blockedTable() string {
